@@ -49,11 +49,19 @@ def run(ctx: Context) -> None:
             src = [norm(a).replace("await", "") for a in ctx.prov.expand(l.iter, re_, l)]
             rep.ob("C02.R1", fkey(tree, re_, "batch-source"), src == ["self._read_incoming_data(request)"], where(re_, l), f"dispatched batch <- {src}")
             apps = [c for c in ast.walk(l) if isinstance(c, ast.Call) and isinstance(c.func, ast.Attribute) and c.func.attr == "append" and "self._events" in norm(c.func.value)]
+            from .c01 import queue_appends_via_get
+
+            via_get = [x for x in queue_appends_via_get(re_) if any(x[0] is y for y in ast.walk(l)) and x[1] == "event.stream_id" and x[3]]
+            present_guard = {"event.stream_idinself._events"}
+            if not apps and len(via_get) == 1:
+                apps = [via_get[0][0]]
+                v = via_get[0][0].func.value.id
+                present_guard = {f"None!={v}", f"{v}!=None"}
             ok = len(apps) == 1
             if ok:
                 g = local_guards(apps[0], l)
                 types_ = [a for a in g if a.startswith("isinstance(event,")]
-                others = [a for a in g if not a.startswith("isinstance(event,") and a != "event.stream_idinself._events" and not a.startswith("not:isinstance(event,")]
+                others = [a for a in g if not a.startswith("isinstance(event,") and a not in present_guard and not a.startswith("not:isinstance(event,")]
                 need = {"ResponseReceived", "DataReceived", "StreamEnded", "StreamReset"}
                 ok = bool(types_) and all(n in types_[0] for n in need) and not others and [norm(a) for a in apps[0].args] == ["event"]
             exits = [x for x in ast.walk(l) if isinstance(x, (ast.Break, ast.Return, ast.Continue))]
